@@ -181,6 +181,11 @@ func ctlSelects(c *ctlJ, it itemJ) bool {
 // like the original one after the trigger's ctl actions executed: selected later rules are removed /
 // get the exclusion written into every link.
 func rewriteCtl(src []itemJ, fired map[int]bool) []itemJ {
+	return rewriteCtlExcept(src, fired, nil)
+}
+
+// rewriteCtlExcept: as rewriteCtl, the ctl actions for which inert() holds are treated as having no effect.
+func rewriteCtlExcept(src []itemJ, fired map[int]bool, inert func(*ctlJ) bool) []itemJ {
 	orig := src
 	src = stripCtl(src)
 	drop := map[int]bool{}
@@ -189,7 +194,7 @@ func rewriteCtl(src []itemJ, fired map[int]bool) []itemJ {
 			continue
 		}
 		for _, a := range t.Links[0].Acts {
-			if a.A != "ctl" {
+			if a.A != "ctl" || (inert != nil && inert(a.Ctl)) {
 				continue
 			}
 			for j := range src {
@@ -223,6 +228,10 @@ func rewriteCtl(src []itemJ, fired map[int]bool) []itemJ {
 // rewrittenFor returns the rewritten SecLang text for one request of the case ("" and a reason when the
 // oracle does not apply).
 func rewrittenFor(c *caseJ, ri int) (string, string) {
+	return rewrittenWith(c, ri, nil)
+}
+
+func rewrittenWith(c *caseJ, ri int, inert func(*ctlJ) bool) (string, string) {
 	if c.Dir != nil {
 		return confText(c.Dflt, rewriteDir(c.Src, c.Dir), nil), ""
 	}
@@ -255,7 +264,64 @@ func rewrittenFor(c *caseJ, ri int) (string, string) {
 			}
 		}
 	}
-	return confText(c.Dflt, rewriteCtl(c.Src, fired), nil), ""
+	return confText(c.Dflt, rewriteCtlExcept(c.Src, fired, inert), nil), ""
+}
+
+func rxCaseCtl(ct *ctlJ) bool {
+	return strings.HasPrefix(ct.Kind, "rmTarget") && ct.Key.K == "rx" && ct.Var == "REQUEST_HEADERS" && hasUpper(ct.Key.V)
+}
+
+// asCodedFor renders, for a case of a listed deviation class, the SecLang text that behaves like the
+// DEVIATING code (not like the property): the form must equal it, otherwise the difference is not the
+// listed one. "" when the deviating behaviour cannot be written as text (a SecMarker with actions, markers
+// hidden from a point inside a phase).
+func asCodedFor(c *caseJ, ri int, class string) string {
+	switch class {
+	case keyZero:
+		if c.Dir == nil || c.Dir.Kind != "rmId" {
+			return ""
+		}
+		// DeleteByID removes the first rule with the id (markers carry 0), DeleteByRange all of them
+		src := cloneSrc(c.Src)
+		id := func(it itemJ) int {
+			if it.Marker != "" {
+				return 0
+			}
+			return it.ID
+		}
+		for _, s := range c.Dir.Specs {
+			var out []itemJ
+			done := false
+			for _, it := range src {
+				if s.Range {
+					if s.A <= id(it) && id(it) <= s.B {
+						continue
+					}
+				} else if !done && id(it) == s.A {
+					done = true
+					continue
+				}
+				out = append(out, it)
+			}
+			src = out
+		}
+		return confText(c.Dflt, src, nil)
+	case keyBlock:
+		// the written "block" stays in the rule as an action without effect
+		d := *c.Dir
+		d.Acts = append([]actJ{}, c.Dir.Acts...)
+		for i := range d.Acts {
+			if d.Acts[i].A == "disr" && d.Acts[i].V == "block" {
+				d.Acts[i].V = "pass"
+			}
+		}
+		return confText(c.Dflt, rewriteDir(c.Src, &d), nil)
+	case keyRxCase:
+		// the un-folded regex never matches a lower-cased name: that ctl excludes nothing
+		rw, _ := rewrittenWith(c, ri, rxCaseCtl)
+		return rw
+	}
+	return ""
 }
 
 func hasMarkers(src []itemJ) bool {
@@ -302,8 +368,7 @@ func deviationClass(c *caseJ) string {
 				if a.Ctl.Kind == "rmId" && specHas(*a.Ctl.Spec, 0) && hasMarkers(c.Src) {
 					return keyZero
 				}
-				if strings.HasPrefix(a.Ctl.Kind, "rmTarget") && a.Ctl.Key.K == "rx" &&
-					a.Ctl.Var == "REQUEST_HEADERS" && hasUpper(a.Ctl.Key.V) {
+				if rxCaseCtl(a.Ctl) {
 					return keyRxCase
 				}
 			}
